@@ -55,7 +55,8 @@ PROPS = {
         'engines': [{'name': 'wr', 'timeout_quick': 600, 'timeout_thorough': 7200}],
         'trusted_base': [WORLD_COMPRESS, 'decompression oracle for the independent decoder: the implementation\'s mtbl_decompress'],
         'assumptions': ['block_restart_interval >= 1; compression never fails',
-                        'PARTIAL: T09b_layout_partial + T09c proved; block-internal clauses, index entries and size policy are decided on every implementation file by the extracted decoder/validator (spec/Parse.v), not yet by a theorem about the model writer (C09_statement is stated, proved only on a computed instance)'],
+                        'T09_full / T09d: sizes that fit the integer widths of the format (keys, values < 4 GiB; block_size + |key| + |value| + 32 < 2^32 per add; framed index block < 4 GiB; statistics < 2^64); compressor output is a string of bytes and round-trips through the decompressor',
+                        'without the size hypotheses the statement is false on the model (T09_unrestricted_refuted, 4 GiB restart-width switch: observation O1)'],
         'explanation': 'Layout theorem (frames contiguous from the initial offset, varint length + CRC32C of stored bytes, index frame, 512-byte trailer ending in the magic) and separator theorem; every file written by the real writer is decoded and validated clause by clause by the extracted independent decoder and compared byte for byte with the model writer.',
     },
     'C01': {
